@@ -198,7 +198,7 @@ type c14Req struct {
 	Proof  string `json:"proof,omitempty"` // ok flip other trunc extra badb64
 	Sig    string `json:"sig,omitempty"`   // valid corrupt unknownkey wronglog forgedwitness extension noncanon
 	Raw    string `json:"raw,omitempty"`   // name of a malformed body
-	Fault  string `json:"fault,omitempty"` // Part A only: fetch-err replace-na replace-ap upload-na upload-ap
+	Fault  string `json:"fault,omitempty"` // Part A only: fetch-err replace-na replace-ap upload-na upload-ap replace-cancel-na|ap|ok (client disconnects during the lock write)
 	Client bool   `json:"client,omitempty"`
 }
 
@@ -220,7 +220,7 @@ var c14Proofs = []string{"ok", "flip", "other", "trunc", "extra", "badb64"}
 var c14Sigs = []string{"valid", "corrupt", "unknownkey", "wronglog", "forgedwitness", "extension", "noncanon"}
 var c14SigsB = []string{"valid", "wronglog", "corrupt"}
 var c14Raws = []string{"empty", "no-blank-line", "no-separator", "old-word", "old-not-number", "old-negative", "old-huge", "old-leading-zero", "old-maxint64", "unknown-origin", "unknown-origin-bad-proof-line"}
-var c14Faults = []string{"fetch-err", "replace-na", "replace-ap", "upload-na", "upload-ap"}
+var c14Faults = []string{"fetch-err", "replace-na", "replace-ap", "upload-na", "upload-ap", "replace-cancel-na", "replace-cancel-ap", "replace-cancel-ok"}
 
 func c14B64(h c14Hash) string { return base64.StdEncoding.EncodeToString(h[:]) }
 
@@ -585,6 +585,34 @@ type c14FaultLock struct {
 
 var errC14Injected = errors.New("c14: injected failure")
 
+// c14ReqCtl travels in the request context: it lets the lock backend model
+// "the client disconnects while the lock write is in flight" (the request's
+// context is cancelled during Replace).
+type c14ReqCtl struct {
+	cancel       context.CancelFunc
+	disconnected bool
+}
+
+type c14CtlKey struct{}
+
+// disconnectDuring performs the write with the client going away while it is in
+// flight: the write itself has the outcome the backend gives it (under the
+// scheduler: ok / error-not-applied / error-applied as chosen by the model
+// store), a failure is reported as the context's error.
+func (l *c14FaultLock) disconnectDuring(ctx context.Context, ctl *c14ReqCtl, old ctlog.LockedCheckpoint, new []byte, apply bool, reportOK bool) (ctlog.LockedCheckpoint, error) {
+	var res ctlog.LockedCheckpoint
+	var err error = errC14Injected
+	if apply {
+		res, err = l.inner.Replace(context.WithoutCancel(ctx), old, new)
+	}
+	ctl.cancel()
+	ctl.disconnected = true
+	if err == nil && reportOK {
+		return res, nil
+	}
+	return nil, ctx.Err()
+}
+
 func (l *c14FaultLock) Fetch(ctx context.Context, id [sha256.Size]byte) (ctlog.LockedCheckpoint, error) {
 	if l.arm == "fetch-err" {
 		l.arm, l.fired = "", true
@@ -608,6 +636,26 @@ func (l *c14FaultLock) Replace(ctx context.Context, old ctlog.LockedCheckpoint, 
 			return nil, err
 		}
 		return nil, errC14Injected
+	}
+	ctl, _ := ctx.Value(c14CtlKey{}).(*c14ReqCtl)
+	if ctl != nil {
+		switch l.arm {
+		case "replace-cancel-na":
+			l.arm, l.fired = "", true
+			return l.disconnectDuring(ctx, ctl, old, new, false, false)
+		case "replace-cancel-ap":
+			l.arm, l.fired = "", true
+			return l.disconnectDuring(ctx, ctl, old, new, true, false)
+		case "replace-cancel-ok":
+			l.arm, l.fired = "", true
+			return l.disconnectDuring(ctx, ctl, old, new, true, true)
+		}
+		if s := verifmc.Cur; s != nil && !s.Draining() && !ctl.disconnected {
+			if s.Choose("client of "+s.Self()+" during the lock write", []string{"stays", "disconnects"}, nil) == 1 {
+				s.Observe("client disconnected")
+				return l.disconnectDuring(ctx, ctl, old, new, true, true)
+			}
+		}
 	}
 	return l.inner.Replace(ctx, old, new)
 }
@@ -914,8 +962,13 @@ func (w *c14World) send(in *c14Inst, r c14Req) c14Resp {
 		in.fl.arm = r.Fault
 	}
 	rec := httptest.NewRecorder()
-	in.h.ServeHTTP(rec, httptest.NewRequest("POST", "/add-checkpoint", strings.NewReader(body)))
-	if in.fl.fired || in.fb.fired {
+	ctx, cancel := context.WithCancel(context.Background())
+	ctl := &c14ReqCtl{cancel: cancel}
+	in.h.ServeHTTP(rec, httptest.NewRequest("POST", "/add-checkpoint", strings.NewReader(body)).WithContext(context.WithValue(ctx, c14CtlKey{}, ctl)))
+	cancel()
+	if in.fl.fired || in.fb.fired || ctl.disconnected {
+		// a disconnected client sees no answer; the request is judged like one
+		// that hit a failure (a 5xx is in order, a 200 must still be recorded)
 		p.faulted = true
 	}
 	in.fl.arm, in.fb.arm = "", ""
